@@ -765,6 +765,32 @@ class ExtLib:
 
     c_numpy_max = c_numpy_amax
 
+    def c_numpy_shares_memory(self, a, k, n, ms):
+        """exact overlap test: distinct parameters of a public kernel are distinct arrays (A8)"""
+        x, y = a[0], a[1]
+        if not (isinstance(x, Arr) and isinstance(y, Arr)):
+            raise Unsupported("numpy.shares_memory of non-arrays")
+        if x.alloc.id != y.alloc.id:
+            return False
+        if x.same_cells(y):
+            return True
+        raise Unsupported("numpy.shares_memory of two views of one array at %s" % self.I.where(n, ms))
+
+    def c_numpy_may_share_memory(self, a, k, n, ms):
+        """bounds-only test: it is also True for views with disjoint elements whose address ranges interleave (components
+        0::2 / 1::2 of one buffer), so for two different argument arrays both outcomes are possible"""
+        x, y = a[0], a[1]
+        if not (isinstance(x, Arr) and isinstance(y, Arr)):
+            raise Unsupported("numpy.may_share_memory of non-arrays")
+        if x.alloc.id == y.alloc.id:
+            return True
+        from .regions import CURRENT_CASE, NeedDecision
+        key = "may_share_memory(%s, %s)" % (x.alloc.label, y.alloc.label)
+        d = CURRENT_CASE[0].decision(key)
+        if d is None:
+            raise NeedDecision(key, "%s at %s" % (key, self.I.where(n, ms)))
+        return d
+
     def c_numpy_mean(self, a, k, n, ms):
         """whole-array mean (no axis): an explicit reduction symbol naming the reduced view"""
         v = a[0]
@@ -1016,6 +1042,15 @@ class ExtLib:
                 idx = tuple(psym("@%d" % i) for i in range(x.ndim))
                 return fx(idx) == fy(idx)
             return False
+        if isinstance(x, Arr) and is_scalar(y) and arr_valfn(x) is None:
+            # a tolerance test of caller-supplied data against a constant: true for every array within atol of it, not only for
+            # the array that equals it, so both outcomes are possible and the true outcome pins no element
+            from .regions import CURRENT_CASE, NeedDecision
+            key = "allclose(%s, %r)" % (x.alloc.label, simplify_scalar(y))
+            d = CURRENT_CASE[0].decision(key)
+            if d is None:
+                raise NeedDecision(key, "%s at %s" % (key, self.I.where(n, ms)))
+            return d
         raise Unsupported("allclose of %r, %r" % (x, y))
 
     # ---- pyfftw
